@@ -125,6 +125,14 @@ def gen(ctx, deep):
             for a in singles:
                 jobs.append((cfgl, [a]))
                 jobs.append((cfgl, [a, rng.choice(singles)]))
+        # rules longer than the role definition that share one link: the link goes with the LAST of them - single, batch
+        # and filtered removal, on Enforcer and on AsyncEnforcer (its own copies of the management calls)
+        l1, l2 = list(G[0]) + ["t1"], list(G[0]) + ["t2"]
+        for is_async in (False, True):
+            cfgo = ec.Config(shape, adapter=True, watcher=None, initial=inits[0], is_async=is_async)
+            for rm in (("remove", "g", l1), ("removemany", "g", [l1]), ("removefiltered", "g", len(G[0]), ["t1"])):
+                jobs.append((cfgo, [("add", "g", l1), ("add", "g", l2), rm]))
+                jobs.append((cfgo, [("addmany", "g", [l1, l2]), rm, ("remove", "g", l2)]))
         n = 1000 if not deep else 8000
         ops_r = ops + [("setrm",)]
         for _ in range(n):
